@@ -20,6 +20,9 @@ type Clause struct {
 	Line  int
 	File  string
 	Known bool
+	// Assumed: a postcondition that call sites may rely on but that is not proved for the body
+	// (clause-level trust inside an otherwise verified contract); listed in the evidence
+	Assumed bool
 }
 
 type LetDef struct {
@@ -423,7 +426,7 @@ func parseSpecFile(path, pkg string) (*SpecFile, error) {
 			} else if curCover != nil {
 				curCover.Props = ps
 			}
-		case "requires", "ensures", "assert":
+		case "requires", "ensures", "assert", "assumes":
 			if curLemma != nil {
 				cl, err := mkClause(p, len(curLemma.Hyps)+1)
 				if err != nil {
@@ -446,11 +449,12 @@ func parseSpecFile(path, pkg string) (*SpecFile, error) {
 					return nil, err
 				}
 				cur.Requires = append(cur.Requires, cl)
-			case "ensures":
+			case "ensures", "assumes":
 				cl, err := mkClause(p, len(cur.Ensures)+1)
 				if err != nil {
 					return nil, err
 				}
+				cl.Assumed = p.kind == "assumes"
 				cur.Ensures = append(cur.Ensures, cl)
 			}
 		case "let":
